@@ -32,7 +32,7 @@ TReset == /\ Is("Reset") /\ q' = [n |-> <<>>, inc |-> <<>>, exc |-> <<>>] /\ res
           /\ act' = "Init" /\ memo' = <<>> /\ l' = l + 1 /\ UNCHANGED scn
 TLookup == /\ Is("Lookup")
            /\ act' = "Lookup" /\ q' = Q /\ res' = Answer(Q) /\ res' = E.res
-           /\ asked' = asked \cup {<<Q, E.res>>}
+           /\ UNCHANGED asked      \* (the answer is compared with the function of its arguments directly)
            /\ memo' = MemoPasses(Q, memo).memo
            /\ l' = l + 1 /\ UNCHANGED scn
 
